@@ -6,6 +6,7 @@
 import FlacModel.Model.Encode
 import FlacModel.Proofs.Machine
 import FlacModel.Proofs.Dot
+import FlacModel.Proofs.Layout
 
 namespace Flac.C01
 open Flac Gen
@@ -154,18 +155,26 @@ theorem predict_restore (p : Profile) (coefs : List Int) (shift : Nat) (hs : shi
 
 /-! ### partition layout (encode.rs:3867 `best_partitions` vs decode.rs:1803 `read_block`) -/
 
-/-- **layout_agree**: every slicing the encoder accepts for candidate order `po` (and then writes as
-    partition order `ilog2(count)`) is exactly the slicing the decoder derives from
-    (block size, predictor order, written order) — for all block sizes, orders and candidates. -/
-theorem layout_agree (bs order po : Nat) (sizes : List Nat) (hbs : bs / 2 ^ po ≠ 0)
-    (h : encLayout bs order po = some sizes) :
+/-- **layout_agree**: every slicing the encoder accepts for candidate order `po` (a candidate
+    always divides the block: `po ≤ trailing_zeros(block size)`) and then writes as partition order
+    `ilog2(count)` is exactly the slicing the decoder derives from (block size, predictor order,
+    written order) — and it satisfies the partition-order rule of RFC 9639 that the decoder now
+    enforces — for all block sizes, predictor orders and candidates. -/
+theorem layout_agree (bs order po : Nat) (sizes : List Nat) (hbs : bs / 2 ^ po ≠ 0) (hdiv : bs % 2 ^ po = 0)
+    (hle : order ≤ bs) (h : encLayout bs order po = some sizes) :
     decLayout bs order (Nat.log2 sizes.length) = .ok sizes := by
   simp only [encLayout, encPartitionAccept] at h
   by_cases hacc : ((rchunkSizes (bs - order) (bs / 2 ^ po)).length == 2 ^ po) = true
   · simp only [hacc, if_true, Option.some.injEq] at h
     have hlen : (rchunkSizes (bs - order) (bs / 2 ^ po)).length = 2 ^ po := by simpa using hacc
     subst h
-    simp only [hlen, Nat.log2_two_pow, decLayout, hbs, if_false]
+    have hb := div_mul_of_mod_zero bs (2 ^ po) hdiv
+    have hlen' : (rchunkSizes (bs / 2 ^ po * 2 ^ po - order) (bs / 2 ^ po)).length = 2 ^ po := by rw [← hb]; exact hlen
+    have hord : order < bs / 2 ^ po :=
+      rchunk_count_order (bs / 2 ^ po) (2 ^ po) order (Nat.pos_of_ne_zero hbs) (Nat.two_pow_pos po) hlen'
+    have hguard : (decLayoutRfc && !(bs % 2 ^ po == 0 && decide (bs / 2 ^ po > order))) = false := by
+      simp [hdiv, hord]
+    simp only [hlen, Nat.log2_two_pow, decLayout, hguard, Bool.false_eq_true, hbs, if_false]
     simp [hlen]
   · simp [hacc] at h
 
